@@ -29,18 +29,18 @@ Proof.
     eauto using lprim_err_same, dprim_err_same, oprim_err_same.
 Qed.
 
-Lemma tlprim_err_same : forall q ev sc st cp k x e0 mn mx st' e,
-  tlprim q ev sc st cp k x e0 mn mx = (st', PErr e) -> st' = st.
-Proof. intros q ev sc st cp k x e0 mn mx st' e H. unfold tlprim in H. err_same H. Qed.
+Lemma tlprim_err_same : forall q nf ev sc st cp k x e0 mn mx st' e,
+  tlprim q nf ev sc st cp k x e0 mn mx = (st', PErr e) -> st' = st.
+Proof. intros q nf ev sc st cp k x e0 mn mx st' e H. unfold tlprim in H. err_same H. Qed.
 
-Lemma tdprim_err_same : forall q ev sc st cp k x fs st' e,
-  tdprim q ev sc st cp k x fs = (st', PErr e) -> st' = st.
-Proof. intros q ev sc st cp k x fs st' e H. unfold tdprim in H. err_same H. Qed.
+Lemma tdprim_err_same : forall q nf ev sc st cp k x fs st' e,
+  tdprim q nf ev sc st cp k x fs = (st', PErr e) -> st' = st.
+Proof. intros q nf ev sc st cp k x fs st' e H. unfold tdprim in H. err_same H. Qed.
 
-Lemma tprim_err_same : forall q ev sc st cp k x st' e,
-  tprim q ev sc st cp k x = (st', PErr e) -> st' = st.
+Lemma tprim_err_same : forall q nf ev sc st cp k x st' e,
+  tprim q nf ev sc st cp k x = (st', PErr e) -> st' = st.
 Proof.
-  intros q ev sc st cp k x st' e H. unfold tprim in H.
+  intros q nf ev sc st cp k x st' e H. unfold tprim in H.
   repeat (dmh H; try (inv H; reflexivity));
     eauto using tlprim_err_same, tdprim_err_same, prim_err_same.
 Qed.
@@ -63,9 +63,9 @@ Ltac prim_same :=
   | E : dprim _ _ _ _ _ _ = (_, PErr _) |- _ => apply dprim_err_same in E; subst
   | E : oprim _ _ _ _ _ _ = (_, PErr _) |- _ => apply oprim_err_same in E; subst
   | E : prim _ _ _ _ _ _ = (_, PErr _) |- _ => apply prim_err_same in E; subst
-  | E : tlprim _ _ _ _ _ _ _ _ _ _ = (_, PErr _) |- _ => apply tlprim_err_same in E; subst
-  | E : tdprim _ _ _ _ _ _ _ _ = (_, PErr _) |- _ => apply tdprim_err_same in E; subst
-  | E : tprim _ _ _ _ _ _ _ = (_, PErr _) |- _ => apply tprim_err_same in E; subst
+  | E : tlprim _ _ _ _ _ _ _ _ _ _ _ = (_, PErr _) |- _ => apply tlprim_err_same in E; subst
+  | E : tdprim _ _ _ _ _ _ _ _ _ = (_, PErr _) |- _ => apply tdprim_err_same in E; subst
+  | E : tprim _ _ _ _ _ _ _ _ = (_, PErr _) |- _ => apply tprim_err_same in E; subst
   end.
 Ltac err_same2 H := repeat (first [ progress (inv H; prim_same; reflexivity) | discriminate H | dmh H ]).
 
@@ -95,30 +95,30 @@ Proof.
     rewrite ?mapM_Some_map, ?mapM_snd_Some_map; simpl; auto.
 Qed.
 
-Lemma troot_state : forall ev st k r fl v n st1, troot ev st k r fl v = inl (n, st1) -> roots st1 = roots st.
+Lemma troot_state : forall nf ev st k r fl v n st1, troot nf ev st k r fl v = inl (n, st1) -> roots st1 = roots st.
 Proof.
-  intros ev st k r fl v n st1 H. unfold troot, tconstruct in H.
+  intros nf ev st k r fl v n st1 H. unfold troot, tconstruct in H.
   repeat (dmh H; try discriminate); inv H; reflexivity.
 Qed.
 
 (* on a list bound to a List spec: every refused operation that is not a batch leaves the state as it was
    (also the copying ones: a copy that cannot be completed is not kept) *)
-Lemma exec_list_err_same : forall q ev sc st ps tid tpth tfl its e0 mn mx sp o deleg st' e,
+Lemma exec_list_err_same : forall q nf ev sc st ps tid tpth tfl its e0 mn mx sp o deleg st' e,
   batch_op o = false ->
   (forall s e', deleg = (s, Err e') -> s = st) ->
-  exec_list q ev sc st ps tid tpth tfl its e0 mn mx sp o deleg = (st', Err e) -> st' = st.
+  exec_list q nf ev sc st ps tid tpth tfl its e0 mn mx sp o deleg = (st', Err e) -> st' = st.
 Proof.
-  intros q ev sc st ps tid tpth tfl its e0 mn mx sp o deleg st' e B DG H.
+  intros q nf ev sc st ps tid tpth tfl its e0 mn mx sp o deleg st' e B DG H.
   destruct o; simpl in B; try discriminate; unfold exec_list in H;
     try (eapply DG; exact H); err_same2 H; try (eapply DG; eassumption).
 Qed.
 
-Lemma exec_dict_err_same : forall q ev sc st ps tid tk tpth tfl its fs sp o deleg st' e,
+Lemma exec_dict_err_same : forall q nf ev sc st ps tid tk tpth tfl its fs sp o deleg st' e,
   batch_op o = false ->
   (forall s e', deleg = (s, Err e') -> s = st) ->
-  exec_dict q ev sc st ps tid tk tpth tfl its fs sp o deleg = (st', Err e) -> st' = st.
+  exec_dict q nf ev sc st ps tid tk tpth tfl its fs sp o deleg = (st', Err e) -> st' = st.
 Proof.
-  intros q ev sc st ps tid tk tpth tfl its fs sp o deleg st' e B DG H.
+  intros q nf ev sc st ps tid tk tpth tfl its fs sp o deleg st' e B DG H.
   destruct o; simpl in B; try discriminate; unfold exec_dict in H;
     try (eapply DG; exact H); err_same2 H; try (eapply DG; eassumption).
 Qed.
@@ -131,12 +131,12 @@ Proof.
     match type of H with option_map _ ?x = _ => destruct x; simpl in H; inv H; auto end.
 Qed.
 
-Lemma exec2_err_same : forall q ev sc st ps tid tk tpth tfl its o st' e,
+Lemma exec2_err_same : forall q nf ev sc st ps tid tk tpth tfl its o st' e,
   batch_op o = false ->
   (copying_op o = false \/ exists e0 mn mx m, tk = KList /\ spec_at ev (f_spec tfl) = Some (Typing.SList e0 mn mx m)) ->
-  exec2 q ev sc st ps tid tk tpth tfl its o = (st', Err e) -> st' = st.
+  exec2 q nf ev sc st ps tid tk tpth tfl its o = (st', Err e) -> st' = st.
 Proof.
-  intros q ev sc st ps tid tk tpth tfl its o st' e B C H.
+  intros q nf ev sc st ps tid tk tpth tfl its o st' e B C H.
   assert (DG : copying_op o = false -> forall s e', exec q sc st ps tid tk tpth tfl its (op_rv o) = (s, Err e') -> s = st).
   { intros C' s e' E. eapply exec_err_same; [| |exact E]; rewrite ?batch_op_rv, ?copying_op_rv; auto. }
   unfold exec2 in H.
@@ -156,19 +156,19 @@ Proof.
 Qed.
 
 (* the step: a refused operation that is not a batch, on a target that checks its members, leaves the whole state as it was *)
-Theorem step2_rejected_unchanged : forall q ev st o st' e,
-  step2 q ev st o = (st', Err e) -> batch_op (o2_op o) = false ->
+Theorem step2_rejected_unchanged : forall q nf ev st o st' e,
+  step2 q nf ev st o = (st', Err e) -> batch_op (o2_op o) = false ->
   (forall n, get_at st (o2_pos o) = Some n -> checks_members ev n = true) ->
   st' = st.
 Proof.
-  intros q ev st o st' e H B CM. unfold step2 in H.
+  intros q nf ev st o st' e H B CM. unfold step2 in H.
   destruct (get_at st (o2_pos o)) as [[|tid tk tpa tpth tfl its]|] eqn:G; try (inv H; reflexivity).
   specialize (CM _ eq_refl).
   destruct (negb (kind_ok tk (o2_op o))) eqn:K; [inv H; reflexivity|].
   destruct (op_mapM (resolve_t st) (o2_op o)) as [ro|] eqn:R; [|inv H; reflexivity].
   destruct (op_mapM_shape _ _ _ _ _ tk R) as (Bq & Cq & Kq).
   destruct (negb (guard ev (o2_scope o) st (o2_pos o) (Node tid tk tpa tpth tfl its) ro)); [inv H; reflexivity|].
-  destruct (exec2 q ev (o2_scope o) st (o2_pos o) tid tk tpth tfl its ro) as [st1 out] eqn:E.
+  destruct (exec2 q nf ev (o2_scope o) st (o2_pos o) tid tk tpth tfl its ro) as [st1 out] eqn:E.
   inv H.
   assert (st1 = st).
   { eapply exec2_err_same; [rewrite Bq; exact B| |exact E].
@@ -181,15 +181,15 @@ Proof.
 Qed.
 
 (* --- batches: what is left is the effect of the elements before the refused one ---------------------------------- *)
-Lemma trebind_loop_prefix : forall q ev sc pvs st tp upd st' upd' e,
-  trebind_loop q ev sc st tp pvs upd = (st', upd', Some e) ->
+Lemma trebind_loop_prefix : forall q nf ev sc pvs st tp upd st' upd' e,
+  trebind_loop q nf ev sc st tp pvs upd = (st', upd', Some e) ->
   exists pre p x post,
     pvs = pre ++ (p, x) :: post /\
-    trebind_loop q ev sc st tp pre upd = (st', upd', None) /\
-    exists c, trebind_one q ev sc st' tp p x = (st', PErr e, c).
+    trebind_loop q nf ev sc st tp pre upd = (st', upd', None) /\
+    exists c, trebind_one q nf ev sc st' tp p x = (st', PErr e, c).
 Proof.
   induction pvs as [|[p x] r IH]; intros st tp upd st' upd' e H; simpl in H; [discriminate|].
-  destruct (trebind_one q ev sc st tp p x) as [[s1 pr] c] eqn:O.
+  destruct (trebind_one q nf ev sc st tp p x) as [[s1 pr] c] eqn:O.
   destruct pr.
   - apply IH in H. destruct H as (pre & p' & x' & post & E & L & T).
     exists ((p, x) :: pre), p', x', post. split; [subst; reflexivity|]. split; [|exact T].
@@ -207,20 +207,20 @@ Proof.
     subst s1. inv H. exists [], p, x, r. split; [reflexivity|]. split; [reflexivity|]. eauto.
 Qed.
 
-Lemma textend_loop_prefix : forall q ev sc xs st ps upd st' upd' e,
-  textend_loop q ev sc st ps xs upd = (st', upd', Some e) ->
+Lemma textend_loop_prefix : forall q nf ev sc xs st ps upd st' upd' e,
+  textend_loop q nf ev sc st ps xs upd = (st', upd', Some e) ->
   exists pre x post u,
     xs = pre ++ x :: post /\
-    textend_loop q ev sc st ps pre upd = (st', u, None) /\
-    tprim q ev sc st' ps (KI (cur_len st' ps)) x = (st', PErr e).
+    textend_loop q nf ev sc st ps pre upd = (st', u, None) /\
+    tprim q nf ev sc st' ps (KI (cur_len st' ps)) x = (st', PErr e).
 Proof.
   induction xs as [|x r IH]; intros st ps upd st' upd' e H; simpl in H; [discriminate|].
-  destruct (tprim q ev sc st ps (KI (cur_len st ps)) x) as [s1 pr] eqn:O.
+  destruct (tprim q nf ev sc st ps (KI (cur_len st ps)) x) as [s1 pr] eqn:O.
   destruct pr.
   - apply IH in H. destruct H as (pre & x' & post & u & E & L & T).
     exists (x :: pre), x', post, u. split; [subst; reflexivity|]. split; [|exact T]. simpl. rewrite O. exact L.
   - apply IH in H. destruct H as (pre & x' & post & u & E & L & T).
     exists (x :: pre), x', post, u. split; [subst; reflexivity|]. split; [|exact T]. simpl. rewrite O. exact L.
-  - inv H. pose proof (tprim_err_same _ _ _ _ _ _ _ _ _ O). subst.
+  - inv H. pose proof (tprim_err_same _ _ _ _ _ _ _ _ _ _ O). subst.
     exists [], x, r, upd'. split; [reflexivity|]. split; [reflexivity|exact O].
 Qed.
